@@ -10,7 +10,6 @@ import (
 	"strconv"
 
 	"cedarverif/internal/core"
-	_ "cedarverif/internal/props"
 )
 
 func main() {
